@@ -18,7 +18,7 @@ import numpy
 import shapely
 import shapely.geometry
 
-from ..common import Failed, quiet_warnings
+from ..common import Failed, nan_equal, quiet_warnings
 from ..geomgen import clip_geometries, hull_bounds, model_polygons
 from ..model import CONVENTIONS, make_dressed
 from ..oracles import cliref
@@ -352,6 +352,39 @@ def compare_with_library(env, what, res, out_cli, lib_exc, out_lib, differ, diff
     return obs.expect(False, what + ': output file content equals the result of the library call', diff, mech=mech)
 
 
+def decoded_file_vs_dataset(path, dataset):
+    """-> None, or a description of the first variable whose decoded values in the file differ from the in-memory dataset."""
+    import xarray
+    with quiet_warnings():
+        back = xarray.open_dataset(path)
+        back.load()
+        back.close()
+    for name in dataset.variables:
+        want = dataset.variables[name]
+        if name not in back.variables:
+            return {'variable': str(name), 'problem': 'missing from the file'}
+        got = back.variables[name]
+        if tuple(got.dims) != tuple(want.dims):
+            return {'variable': str(name), 'problem': 'dimensions differ', 'file': got.dims, 'returned': want.dims}
+        a, b = numpy.asarray(got.values), numpy.asarray(want.values)
+        if a.dtype.kind in 'OUS' or b.dtype.kind in 'OUS':
+            def blank(v):       # a missing text cell: NaN in the table, the empty string in a netCDF string variable
+                return v is None or v != v or v == ''
+            equal = a.shape == b.shape and all((x == y) or (blank(x) and blank(y)) for x, y in zip(a.ravel().tolist(), b.ravel().tolist()))
+        elif a.dtype.kind == 'M' or b.dtype.kind == 'M':
+            equal = a.shape == b.shape and bool(numpy.array_equal(a.astype('datetime64[ns]'), b.astype('datetime64[ns]'), equal_nan=True))
+        else:
+            equal = nan_equal(a, b)
+        if not equal:
+            bad = numpy.argwhere(~((a.astype(float) == b.astype(float)) | (numpy.isnan(a.astype(float)) & numpy.isnan(b.astype(float))))) \
+                if a.shape == b.shape and a.dtype.kind in 'fiu' and b.dtype.kind in 'fiu' else None
+            only_missing = bad is not None and bool(numpy.all(numpy.isnan(b.astype(float))[tuple(bad.T)]))
+            return {'variable': str(name), 'problem': 'values differ', 'file': a, 'returned': b,
+                    'stored as integer': str(want.encoding.get('dtype', ''))[:3] in ('int', 'uin') or numpy.dtype(want.encoding.get('dtype', 'float64')).kind in 'iu',
+                    'missing rows only': only_missing}
+    return None
+
+
 def nc_differ(out_cli, out_lib):
     return lambda: cliref.nc_diff(cliref.nc_content(out_cli), cliref.nc_content(out_lib))
 
@@ -585,6 +618,16 @@ def op_points(env):
     if same:
         want = n_hits if eff_policy == 'drop' else len(rows)
         reopen_netcdf(env, out_cli, 'extract-points', point_dim=eff_dim, point_count=want)
+        # ... and the file, read back, holds what the library call RETURNED (in memory), not merely what the library would
+        # have written: a value that the writer spoils is a difference between the command and the library result too
+        diff = decoded_file_vs_dataset(out_cli, point_data)
+        obs.cls('points:file-compared-with-returned-dataset')
+        if diff is not None:
+            int_promoted = eff_policy == 'fill' and n_miss and diff.get('stored as integer') and diff.get('missing rows only')
+            obs.expect(False, 'extract-points: the file read back equals the dataset the library call returns', diff,
+                       mech='fill-policy-integer-variable-spoiled-on-write' if int_promoted else 'cli-file-differs-from-returned-dataset')
+        else:
+            obs.ok()
 
 
 # ---------------------------------------------------------------------------------------------------------
